@@ -4,6 +4,7 @@
 import Redress.Model.Wire
 import Redress.Model.Run
 import Redress.Monitors
+import Redress.MonitorsNR
 import Redress.Model.Twin
 
 namespace Driver.Loop
@@ -184,7 +185,7 @@ def finish (c : Case) : IO Unit := do
       | some (_, .outcome o _) => some (.outcome o ((c.implTl.toList.filter (·.1 == k)).map (·.2)))
       | some (_, r) => some r
       | none => none
-    for (pid, name, mon) in Monitors.all do
+    for (pid, name, mon) in Monitors.all ++ MonitorsNR.all do
       let mv := mon c.cfg l.entry l.trace l.res
       let iv := match ires with
         | some r => boolTok (mon c.cfg l.entry itrace r)
